@@ -172,13 +172,13 @@ End Unfold.
      "fix":  {"type":"array","length":2,"items":{"type":"boolean","binaryFormat":"?"}}}} *)
 Definition ex_schema : schema :=
   SObj None
-    [ ([105;100], {| p_index := 0; p_default := None |}, SLeaf TInteger (Some (BInt Ih)) false);
-      ([110;97;109;101], {| p_index := 0; p_default := None |}, SLeaf TString (Some (BStr 4)) true);
-      ([119], {| p_index := 0; p_default := Some (VFloat 4609434218613702656) |}, SLeaf TNumber (Some BFloat) false);
+    [ ([105;100], {| p_index := 0; p_default := None |}, SLeaf TInteger (Some (BInt Ih)) 0%nat);
+      ([110;97;109;101], {| p_index := 0; p_default := None |}, SLeaf TString (Some (BStr 4)) 1%nat);
+      ([119], {| p_index := 0; p_default := Some (VFloat 4609434218613702656) |}, SLeaf TNumber (Some BFloat) 0%nat);
       ([120;115], {| p_index := 0; p_default := None |},
-         SArr (ALen IB) (SObj None [ ([112], {| p_index := 0; p_default := None |}, SLeaf TString (Some (BPas 3)) false);
-                                     ([112;97;100], {| p_index := 0; p_default := None |}, SLeaf TNull (Some (BPad 2)) false) ]));
-      ([102;105;120], {| p_index := 0; p_default := None |}, SArr (AFixed 2) (SLeaf TBoolean (Some BBool) false)) ].
+         SArr (ALen IB) (SObj None [ ([112], {| p_index := 0; p_default := None |}, SLeaf TString (Some (BPas 3)) 0%nat);
+                                     ([112;97;100], {| p_index := 0; p_default := None |}, SLeaf TNull (Some (BPad 2)) 0%nat) ]));
+      ([102;105;120], {| p_index := 0; p_default := None |}, SArr (AFixed 2) (SLeaf TBoolean (Some BBool) 0%nat)) ].
 
 Definition ex_value : value :=
   VObj [ ([105;100], VInt (-2)); ([110;97;109;101], VStr [97;98;0;99;100;101]);
